@@ -2,7 +2,7 @@
 See crash.py for the crash-state construction.  C04: extracted safeb on every explored crash image.
 C05: real library opens crash images taken after a sync point (flush_meta + fsync_range both Ok) and
 every block must read as the synced value or as the value of an operation issued after the sync."""
-import os, json, shutil, collections
+import os, json, shutil, collections, hashlib
 import qv, hist, seqrun, common, crash, foreign, c10
 
 
@@ -254,6 +254,7 @@ def run_prop(prop, tier, seed, replay):
     obs = seqrun.run_cases_text(d, [(c['cid'], c['text']) for c in cases], timeout=900)
     finds = []
     nimg = 0
+    distinct_imgs = set()
     npoints = 0
     stats = collections.Counter()
     for c in cases:
@@ -347,6 +348,8 @@ def run_prop(prop, tier, seed, replay):
             open(p, 'wb').write(data)
             paths.append(p)
         nimg += len(paths)
+        for (_pi, _desc, _data) in imgs:
+            distinct_imgs.add(hashlib.sha1(_data).digest())
         if prop == 'C04':
             vd = qv.qdrv_check(paths, d)
             for j, p in enumerate(paths):
@@ -478,7 +481,7 @@ def run_prop(prop, tier, seed, replay):
         violations.append({'replay': path})
         print('  finding [%s] %s [%s]: %s' % (cls, c['cid'], c['g'].desc(), desc[:420]))
     shutil.rmtree(d, ignore_errors=True)
-    cov = {'evaluations': nimg, 'distinct_nontrivial': nimg,
+    cov = {'evaluations': nimg, 'distinct_nontrivial': len(distinct_imgs), 'nontrivial_rule': 'distinct crash images (byte content)',
            'rule': 'crash images = (prefix of the completed request stream) x (subset of un-synced requests: all subsets up to %d pending, else nothing/everything/drop-one/keep-one + random) + block-level tearings; histories over library-formatted and independently built images incl. COW, discard, eviction write-back, flush_meta; plus histories with a batch of concurrently running operations (sync next to discards / writes / cache shrinking on shared slices, 3 schedules each), whose request stream is taken in the order the effects reached the file' % crash.EXH,
            'samples': [{'geometry': c['g'].desc(), 'ops': [hist.op_line(o) for o in c['ops'][:10]]} for c in cases[:2]],
            'histories_whose_every_crash_state_is_covered_by_the_discipline_theorem': stats.get('discipline_covered', 0), 'histories': len(cases), 'concurrent_histories': sum(1 for c in cases if c.get('par')), 'crash_points': npoints, 'crash_images': nimg, 'notes': dict(stats), 'findings_by_class': dict(seen)}
